@@ -9,6 +9,7 @@ import (
 	"strings"
 	"time"
 
+	codectypes "github.com/cosmos/cosmos-sdk/codec/types"
 	sdk "github.com/cosmos/cosmos-sdk/types"
 	authtypes "github.com/cosmos/cosmos-sdk/x/auth/types"
 
@@ -425,34 +426,45 @@ func (it *Interp) deliver(i int, op *Op, msg sdk.Msg, fill func(st *StepInfo, re
 	it.notify(st)
 }
 
-// submitEvent makes every bonded validator claim the event.
-func (it *Interp) submitEvent(chain string, ev mtypes.ExternalEvent) {
-	any, err := mtypes.PackEvent(ev)
-	if err != nil {
-		panic(err)
-	}
-	for vi, v := range it.H.Staking.Vals {
-		if !v.Bonded {
-			continue
+// claimUpTo lets validator vi claim, in order, the events it has not claimed yet, up to index limit.
+func (it *Interp) claimUpTo(chain string, vi, limit int) {
+	w := it.W[chain]
+	for w.Cursor[vi] < limit && w.Cursor[vi] < len(w.Events) {
+		any, err := mtypes.PackEvent(w.Events[w.Cursor[vi]])
+		if err != nil {
+			panic(err)
 		}
 		res := it.H.Deliver(&mtypes.MsgSubmitExternalEvent{Event: any, Signer: sdk.AccAddress(sim.ValAddr(vi)).String(), ChainId: chain})
 		if res.Err != nil {
 			it.Stats["claim-rejected"]++
 		}
+		w.Cursor[vi]++
 	}
 }
 
-// relayAll lets the validators claim every pending event of a chain.
+// relayAll lets the validators claim pending events of a chain (the lazy one only when catching up).
 func (it *Interp) relayAll(i int, op *Op, chain string, max int) {
 	w := it.W[chain]
 	pre := it.preSnap()
-	n := 0
-	for w.Relayed < len(w.Events) && n < max {
-		it.submitEvent(chain, w.Events[w.Relayed])
-		w.Relayed++
-		n++
+	target := w.Relayed + max
+	if target > len(w.Events) {
+		target = len(w.Events)
 	}
-	if n > 0 {
+	did := false
+	for vi, v := range it.H.Staking.Vals {
+		if !v.Bonded {
+			continue
+		}
+		if it.C.Lazy == vi+1 && !(op.K == "relay" && op.R == 1) {
+			continue
+		}
+		if w.Cursor[vi] < target {
+			did = true
+		}
+		it.claimUpTo(chain, vi, target)
+	}
+	w.Relayed = target
+	if did {
 		post := it.Snap()
 		it.cur = post
 		it.notify(&StepInfo{Idx: i, Op: op, Phase: "op", Pre: pre, Post: post, Note: "relay"})
@@ -655,6 +667,89 @@ func (it *Interp) step(i int, op *Op) {
 
 	case "tick":
 		w.Height += uint64(op.N)
+
+	case "byz":
+		if w.Relayed >= len(w.Events) {
+			return
+		}
+		// Byzantine = the bonded validator with the least power, provided it holds less than a third
+		bz, tot := -1, int64(0)
+		for vi, v := range it.H.Staking.Vals {
+			if !v.Bonded {
+				continue
+			}
+			tot += v.Power
+			if bz < 0 || v.Power < it.H.Staking.Vals[bz].Power {
+				bz = vi
+			}
+		}
+		if bz < 0 || it.H.Staking.Vals[bz].Power*3 >= tot {
+			return
+		}
+		any0, _ := mtypes.PackEvent(w.Events[w.Relayed])
+		var ev mtypes.ExternalEvent
+		if err := it.H.Cdc.UnpackAny(&codectypes.Any{TypeUrl: any0.TypeUrl, Value: append([]byte{}, any0.Value...)}, &ev); err != nil {
+			return
+		}
+		switch e := ev.(type) {
+		case *mtypes.SendToHubEvent:
+			switch op.N {
+			case 0:
+				e.Amount = e.Amount.MulRaw(10).AddRaw(1)
+			case 1:
+				e.CosmosReceiver = sim.UserAddr(2).String()
+			case 2, 3:
+				e.Sender = sim.ExtUser(3).Hex()
+			default:
+				e.TxHash = "0xbad"
+			}
+		case *mtypes.TransferToChainEvent:
+			switch op.N {
+			case 0:
+				e.Amount = e.Amount.MulRaw(10).AddRaw(1)
+			case 1:
+				e.ExternalReceiver = sim.ExtUser(3).Hex()
+				if e.ReceiverChainId == "hub" {
+					e.ExternalReceiver = HubHex(sim.UserAddr(2))
+				}
+			case 2:
+				e.Fee = sdk.ZeroInt()
+			case 3:
+				e.Sender = sim.ExtUser(3).Hex()
+			case 4:
+				e.Fee = e.Amount
+			default:
+				e.TxHash = "0xbad"
+			}
+		case *mtypes.BatchExecutedEvent:
+			switch op.N {
+			case 0:
+				e.BatchNonce++
+			case 1, 2:
+				e.FeePayer = sim.ExtUser(2).Hex()
+			case 3, 4:
+				e.FeePaid = e.FeePaid.MulRaw(1000).AddRaw(1)
+			default:
+				e.TxHash = "0xbad"
+			}
+		default:
+			return
+		}
+		if ev.Validate(mtypes.ChainID(chain)) != nil {
+			return
+		}
+		any, _ := mtypes.PackEvent(ev)
+		pre := it.preSnap()
+		res := it.H.Deliver(&mtypes.MsgSubmitExternalEvent{Event: any, Signer: sdk.AccAddress(sim.ValAddr(bz)).String(), ChainId: chain})
+		if res.Err == nil {
+			it.Stats["byz-claim"]++
+			if w.Cursor[bz] <= w.Relayed {
+				w.Cursor[bz] = w.Relayed + 1 // it has spent its claim for this nonce
+			}
+		}
+		post := it.Snap()
+		it.cur = post
+		it.notify(&StepInfo{Idx: i, Op: op, Phase: "op", Pre: pre, Post: post, Note: "byzantine claim"})
 
 	case "sign":
 		// every bonded validator confirms every outgoing tx it has not confirmed yet (all chains)
